@@ -90,7 +90,7 @@ impl Worker {
 
 /// Verification entry point: run `jobs` on a pool of `size` workers and shut the pool down.
 #[cfg(khttp_verif)]
-pub fn verif_run_pool<J: Task>(size: usize, jobs: Vec<J>) {
+pub fn verif_run_pool<J: Task>(size: usize, jobs: impl IntoIterator<Item = J>) {
     let pool = ThreadPool::new(size);
     for j in jobs {
         pool.execute(j);
